@@ -22,7 +22,7 @@ RULE = ("histograms of every class (Histogram1D, Histogram2D, HistogramND 3-4D, 
         "(+ load_json through a scratch file), parsed and compared attribute by attribute bit-exactly; the parsed object is serialised "
         "again and the documents compared; documents declaring physt_compatible around the running version (older, equal, pre/post/dev "
         "releases, newer patch / minor / major, components gaining a digit) must be accepted / refused; histogram subclasses defined by the user after earlier documents were read; non-trivial = histogram with non-zero "
-        "missed values or custom errors or custom metadata and a non-default dtype / binning type; distinct by hash of the document")
+        "missed values or custom errors or custom metadata and a non-default dtype / binning type; distinct by hash of the document Collections carry their own name / title and 0-3 members; right-closed fixed-width bins, selections that drop the last bin, and histograms whose tracking of missed values was switched off after values were missed are part of the mix.")
 ASSUMPTIONS = ["float128 histograms are not serialised (to_json raises TypeError: refusal, not a violation)",
                "packaging.version is trusted for the ordering of version strings"]
 
